@@ -330,7 +330,8 @@ def cross_main(args):
     path = os.path.join(ROOT, "mutation", "RESULTS.json")
     allr = json.load(open(path))
     key = lambda r: (r["prop"], r["file"], r["func"], r["mutation"])  # noqa: E731
-    want = {key(r) for r in allr if r["verdict"] in ("NOT-CAUGHT", "inconclusive") and "caught_by" not in r}
+    want = {key(r) for r in allr if r["verdict"] in ("NOT-CAUGHT", "inconclusive") and
+            ("caught_by" not in r or (args.all and not r["caught_by"]))}
     if args.props:
         want = {k for k in want if k[0] in args.props.split(",")}
     src = {key(m): m for m in plan(sorted({k[0] for k in want}), 100000, args.seed) if key(m) in want}
@@ -340,7 +341,8 @@ def cross_main(args):
     try:
         with concurrent.futures.ThreadPoolExecutor(args.jobs) as ex:
             # (the property's own check first: it may have been extended since the first phase)
-            futs = [ex.submit(cross_check, m, [m["prop"]] + [p for p in dict.fromkeys(pbf.get(m["file"], [])) if p != m["prop"]])
+            every = ["C%02d" % i for i in range(1, 21)] if args.all else []
+            futs = [ex.submit(cross_check, m, list(dict.fromkeys([m["prop"]] + pbf.get(m["file"], []) + every)))
                     for m in src.values()]
             for i, f in enumerate(concurrent.futures.as_completed(futs)):
                 r = f.result()
@@ -437,6 +439,8 @@ def main():
     ap.add_argument("--resume", action="store_true", help="skip mutants already in mutation/journal.jsonl")
     ap.add_argument("--cross", action="store_true", help="second phase: run what a check let through against the "
                     "checks of the other properties anchored in the same file")
+    ap.add_argument("--all", action="store_true", help="with --cross: re-check what no check caught so far against "
+                    "the quick checks of ALL properties (own first, then those anchored in the same file, then the rest)")
     ap.add_argument("--render", action="store_true", help="only re-render RESULTS.md from RESULTS.json + TRIAGE.json")
     ap.add_argument("--try", dest="try_id", help="apply the mutant with this id (RESULTS.json) to a scratch worktree and "
                     "run the check given with --check (default: its property's) against it, printing the output")
